@@ -254,7 +254,7 @@ class Subroutine(Scope):
         errors = []
         for missing_obj in self.missing_args:
             new_diag = Diagnostic(
-                missing_obj.sline - 1,
+                self.child_line(missing_obj),
                 f'Variable "{missing_obj.name}" with INTENT keyword not found in'
                 " argument list",
                 severity=1,
